@@ -100,6 +100,12 @@ class Session(BusSession):
         for l in CLIENTS:
             if self.is_open(l):
                 ops.append(['disc', l])
+        # a call written in the same main-loop iteration in which its callee's socket closes (both write orders)
+        for x, y in (('A', 'B'), ('B', 'A'), ('A', 'T')):
+            if self.is_open(x) and self.is_open(y) and sum(1 for sl in self.slots_model if sl[0] == x) < 2 \
+                    and not any(sl[0] == x and sl[1] == y and sl[2] == SERIALS[1] for sl in self.slots_model):
+                for first in (0, 1):
+                    ops.append(['race', first, x, y, SERIALS[1]])
         if self.timeout is not None:
             ops.append(['advance', 3000])
             ops.append(['advance', 6000])
@@ -231,6 +237,46 @@ class Session(BusSession):
             self.slots_model = keep
             self.close_slot(l)
             want.pop(l, None)
+        elif kind == 'race':
+            _, first, x, y, s = op
+            m = R.method_call(s, self.uname[y], '/c', 'c.i', 'Do', [R.U(s)])
+            keep = []
+            for sl in self.slots_model:
+                if sl[1] == y and sl[0] != y:
+                    w(sl[0], ('buserr', b'org.freedesktop.DBus.Error.NoReply', sl[2]))
+                elif sl[0] == y:
+                    pass
+                else:
+                    keep.append(sl)
+            self.slots_model = keep
+            cy = self.slots[y]
+            if first == 0:
+                self.bus.send(self.slots[x], R.encode_message(m))
+                self.bus.h.cmd('CLOSE %d nopump' % cy)
+            else:
+                self.bus.h.cmd('CLOSE %d nopump' % cy)
+                self.bus.send(self.slots[x], R.encode_message(m))
+            self.slots[y] = None
+            self.bus.pump()
+            self._distribute(self.bus.recvall())
+            self._distribute(self.bus.advance(0))
+            want.pop(y, None)
+            self.hit('race-call-vs-callee-close')
+            # whichever the bus handles first, the caller is told exactly once: the callee has gone (undeliverable) or it
+            # went away with the call unanswered (NoReply); no slot survives
+            obs = self.observe()
+            obs.pop(y, None)
+            mine = [o for o in obs.get(x, []) if o.sender == R.BUS and o.kind == R.MT_ERROR and o.rserial == s
+                    and o.errname in (b'org.freedesktop.DBus.Error.NoReply', b'org.freedesktop.DBus.Error.ServiceUnknown', b'org.freedesktop.DBus.Error.NameHasNoOwner')]
+            if len(mine) != 1:
+                clause = 'noreply-missing' if not mine else 'noreply-unexpected'
+                out.append(Violation(clause, 'race-with-disconnect', '%r: the caller received %d errors for a call whose callee disconnected in the same loop iteration: %r' % (op, len(mine), obs.get(x)), None))
+            else:
+                obs[x] = [o for o in obs[x] if o is not mine[0]]
+                self.expect(obs, want, out, repr(op))
+            if not out:
+                self.check_dump(out, repr(op))
+            return out
         elif kind == 'advance':
             dt = op[1]
             keep = []
